@@ -288,6 +288,7 @@ func ledgerChains(c *fw.Ctx, nChains, blocks int, perBlock func(s *chain.Sim, pa
 			if c.Model != nil {
 				line = "ledger-block " + ab.Abstract(p.Block, p.Supp)
 			}
+			c01PayoutMutants(c, s, p, rp)
 			var au consensus.ApplyUpdate
 			var err error
 			panicked, msg := fw.Recover(func() { au, err = s.Apply(p.Block, p.Supp) })
@@ -296,8 +297,11 @@ func ledgerChains(c *fw.Ctx, nChains, blocks int, perBlock func(s *chain.Sim, pa
 				break
 			}
 			if err != nil {
+				// the generator builds blocks by the rules (it is validated on the unchanged tree over many seeds): a rejected
+				// honest block means fees, payouts or balances are no longer judged the way the statement says
 				res.Note("generator produced a rejected block (%s seed %d height %d): %v", mode, seed, rp.Height, err)
 				res.Count("generator-rejected")
+				res.Violate(fw.Violation{Key: "c01-honest-block-rejected", What: fmt.Sprintf("a block built by the rules (payout = scheduled reward + all fees, balanced transactions) was rejected: %v", err), Replay: rp, Expected: "accepted", Observed: err.Error()})
 				break
 			}
 			res.Eval(fmt.Sprintf("%s/%d/%d", mode, seed, k), len(p.Block.Transactions)+len(p.Block.V2Transactions()) > 0)
@@ -344,4 +348,53 @@ func runC01(c *fw.Ctx) {
 		t(c)
 		c.Res.Rule = rule + " PLUS (C01T): " + c.Res.Rule
 	}
+}
+
+// c01PayoutMutants: "miner fees reappear exactly in the miner payout" from the rejecting side — the same block with a
+// payout that leaves out the v1 fees, the v2 fees, one hasting, or adds one hasting must be rejected.
+func c01PayoutMutants(c *fw.Ctx, s *chain.Sim, p chain.BlockPlan, rp blockReplay) {
+	res := c.Res
+	var v1fees, v2fees types.Currency
+	for _, t := range p.Block.Transactions {
+		for _, f := range t.MinerFees {
+			v1fees = v1fees.Add(f)
+		}
+	}
+	for _, t := range p.Block.V2Transactions() {
+		v2fees = v2fees.Add(t.MinerFee)
+	}
+	if len(p.Block.MinerPayouts) != 1 {
+		return
+	}
+	full := p.Block.MinerPayouts[0].Value
+	try := func(kind string, v types.Currency) {
+		mb := chain.DeepCopyBlock(p.Block)
+		mb.Timestamp = p.Block.Timestamp
+		s.Seal(&mb, p.Miner)
+		mb.MinerPayouts[0].Value = v
+		if mb.V2 != nil {
+			mb.V2.Commitment = s.Tip.Commitment(p.Miner, mb.Transactions, mb.V2Transactions())
+		}
+		mb.Nonce = 0
+		for nf := s.Tip.NonceFactor(); mb.ID().CmpWork(s.Tip.PoWTarget()) < 0; {
+			mb.Nonce += nf
+		}
+		var err error
+		panicked, msg := fw.Recover(func() { err = consensus.ValidateBlock(s.Tip, mb, chain.CopySupp(p.Supp)) })
+		res.Count("payout-mutant:" + kind)
+		res.Eval(fmt.Sprintf("payout/%s/%d/%d/%s", rp.Mode, rp.Seed, rp.Height, kind), true)
+		if panicked {
+			res.Violate(fw.Violation{Key: "c10-validate-or-apply-panic", What: "panic on a payout mutant: " + msg, Replay: rp})
+		} else if err == nil {
+			res.Violate(fw.Violation{Key: "c01-fees-not-in-payout:accepted:" + kind, What: fmt.Sprintf("a block whose miner payout is %v instead of reward + fees = %v (v1 fees %v, v2 fees %v) was accepted", v, full, v1fees, v2fees), Replay: rp, Expected: "rejected", Observed: "accepted"})
+		}
+	}
+	if !v1fees.IsZero() {
+		try("without-v1-fees", full.Sub(v1fees))
+	}
+	if !v2fees.IsZero() {
+		try("without-v2-fees", full.Sub(v2fees))
+	}
+	try("minus-1H", full.Sub(types.NewCurrency64(1)))
+	try("plus-1H", full.Add(types.NewCurrency64(1)))
 }
